@@ -212,8 +212,8 @@ Lemma ray_by_spec (m : M) (r : Ray R) : affine m ->
   exists dt, 0 <= dt /\ rorigin r' = vadd (mul4x4point m (rorigin r)) (vscale (mul4x4vec m (rdir r)) dt).
 Proof.
   intros Ha. unfold ray_by, pt_with_error, vec_with_error. cbn [rdir rorigin]. split; [reflexivity|].
-  pose proof (gamma_pos 3 ltac:(lia)) as Hg.
-  destruct (abs_err_nonneg m (vx (rorigin r)) (vy (rorigin r)) (vz (rorigin r)) (ngamma 3) (Rlt_le _ _ Hg)) as (E1 & E2 & E3).
+  pose proof (gamma_pos 4 ltac:(lia)) as Hg.
+  destruct (abs_err_nonneg m (vx (rorigin r)) (vy (rorigin r)) (vz (rorigin r)) (ngamma 4) (Rlt_le _ _ Hg)) as (E1 & E2 & E3).
   apply nudge_spec; assumption.
 Qed.
 
